@@ -777,7 +777,7 @@ def run(rep, tier):
         elif back is None:
             fail("failing-input", f"the printed counterexample is not readable as `name = 0x<hex>` lines: {o['str'][:300]!r}", case, sig={"what": "printed-cex-differs"})
         elif sorted(back) != want:
-            diff = [(n, hex(dict(back).get(n, -1)), hex(x)) for n, x in want if dict(back).get(n) != x][:3]
+            diff = [(n, hex(dict(back)[n]) if n in dict(back) else 'not printed', hex(x)) for n, x in want if dict(back).get(n) != x][:3]
             fail("failing-input", f"the printed counterexample (marked valid) is not the solver's model: (variable, printed, solver's value) = {diff}; "
                  f"printed names {sorted(n for n, _ in back)[:6]}, model names {[n for n, _ in want][:6]}; text {o['str'][:200]!r}", case, sig={"what": "printed-cex-differs"})
         rcalls.append(c04_render.model_call(vs, o["parsed"]))
@@ -1118,11 +1118,11 @@ def run(rep, tier):
     rep.coverage["phase_seconds"] = phases
     rep.coverage["traces_validated_against_impl"] = len(scripted) + len(rcases) + len(fcalls) if m is not None else 0
     return rep.finish(
-        checker_cmd="make -C coq Props/C04.vo (coq_makefile, coqc 8.16.1) after regenerating coq/Gen/GenRefine.v, GenSolveFs.v and GenSolveDispatch.v from /repo/src/halmos/solve.py",
+        checker_cmd="make -C coq Props/C04.vo (coq_makefile, coqc 8.16.1) after regenerating coq/Gen/GenRefine.v, GenSolveFs.v, GenSolveDispatch.v, GenCexPrint.v from /repo/src/halmos/solve.py and GenHexify.v from utils.py",
         trusted_base=common.TRUSTED_BASE_COMMON + ["the z3 and yices-smt2 binaries in /venv/bin as truthful solvers in the end-to-end part of the correspondence run"],
         assumptions=ASSUMPTIONS,
         partial=PARTIAL + (f"; THIS RUN WAS RESTRICTED to the families {only} (VERIF_C04_ONLY)" if only else ""),
-        rule="five case families: (1) const: value texts in the syntaxes #b / #x (both cases) / (_ bvN W) / bvN for boundary and random values up to 512 bits plus malformed texts; non-trivial = well-formed value > 9; (2) model_output: generated get-model outputs with 1-5 define-fun entries (halmos_/p_/other names, |quoted|, wrapped lines, three value syntaxes, unparsable values); (3) print: real z3 / yices-smt2 (halmos' arguments, and --smt2-model-format alone) printing the model of x = n at widths 8/160/256/264; (4) scripted: every combination of canned first/refined solver answers x unsat-core hit x already-refined x refinement-changes-text through the real solve_end_to_end; non-trivial = first answer is sat; (5) real: Path queries f_evm_op(x, y) = r with x and/or y pinned, through the real solve_end_to_end with real z3 / yices (refinement needed), incl. exp (must stay potentially invalid) and unsatisfiable-after-refinement ones; (6) fs: sessions of 2-5 queries solved in one dump directory pre-populated (60%) with files of an earlier run, path ids drawn from a small set so that names collide, scripted solver keyed by the content it is handed, first / refined answers from {valid, abstract, unsat, unknown, garbage, timeout}, unsat-core hits, already-refined contexts; non-trivial = a file named like the current query's was already there; (7) l3: python -m halmos --dump-smt-directory on fabricated contracts with overloaded tests (identity / XOR / ADD conditions, one failing input each), two runs sharing the directory; (8) inv: python -m halmos --invariant-depth 1 on a target whose setter has a require() on an argument that is not stored: every valid model is replayed concretely; (9) path: real sevm.Path objects through random appends / branches / duplicate appends / slices over state variables / extensions by a fresh path (0-3 transactions), conditions over fresh variables, then to_smt2 with and without --cache-solver: the query must entail every condition; non-trivial = at least one extension of a sliced path; (10) handler: the real _solve_end_to_end_callback for every (executor shut down?, --early-exit?, future content) combination; (11) kill: 2-4 candidates solved concurrently through the real handle_assertion_violation / thread pool / PopenExecutor with scripted solvers that pause after `sat`, after the variables, inside the f_evm_ name, after it, in the first line, with / without a SIGTERM handler, one of them producing a valid answer that (with --early-exit) shuts the executor down and kills the others; non-trivial = a solver was killed mid-answer; distinct by hash of the case",
+        rule="five case families: (1) const: value texts in the syntaxes #b / #x (both cases) / (_ bvN W) / bvN for boundary and random values up to 512 bits plus malformed texts; non-trivial = well-formed value > 9; (2) model_output: generated get-model outputs with 1-5 define-fun entries (halmos_/p_/other names, |quoted|, wrapped lines, three value syntaxes, unparsable values); (3) print: real z3 / yices-smt2 (halmos' arguments, and --smt2-model-format alone) printing the model of x = n at widths 8/160/256/264; (4) scripted: every combination of canned first/refined solver answers x unsat-core hit x already-refined x refinement-changes-text through the real solve_end_to_end; non-trivial = first answer is sat; (5) real: Path queries f_evm_op(x, y) = r with x and/or y pinned, through the real solve_end_to_end with real z3 / yices (refinement needed), incl. exp (must stay potentially invalid) and unsatisfiable-after-refinement ones; (6) fs: sessions of 2-5 queries solved in one dump directory pre-populated (60%) with files of an earlier run, path ids drawn from a small set so that names collide, scripted solver keyed by the content it is handed, first / refined answers from {valid, abstract, unsat, unknown, garbage, timeout}, unsat-core hits, already-refined contexts; non-trivial = a file named like the current query's was already there; (7) l3: python -m halmos --dump-smt-directory on fabricated contracts with overloaded tests (identity / XOR / ADD conditions, one failing input each), two runs sharing the directory; (8) inv: python -m halmos --invariant-depth 1 on a target whose setter has a require() on an argument that is not stored: every valid model is replayed concretely; (9) path: real sevm.Path objects through random appends / branches / duplicate appends / slices over state variables / extensions by a fresh path (0-3 transactions), conditions over fresh variables, then to_smt2 with and without --cache-solver: the query must entail every condition; non-trivial = at least one extension of a sliced path; (10) handler: the real _solve_end_to_end_callback for every (executor shut down?, --early-exit?, future content) combination; (11) kill: 2-4 candidates solved concurrently through the real handle_assertion_violation / thread pool / PopenExecutor with scripted solvers that pause after `sat`, after the variables, inside the f_evm_ name, after it, in the first line, with / without a SIGTERM handler, one of them producing a valid answer that (with --early-exit) shuts the executor down and kills the others; non-trivial = a solver was killed mid-answer; (12) render: solver outputs (z3 / yices syntaxes) for 0-12 (once 70) variables named p_/halmos_<var>_<type>[_uid]_NN over 21 declared types at SMT widths 256 / 264 / 512 / the declared width / long bytes, values small / random / all ones / top bit / above the declared width, through the real parse_model_str and str(PotentialModel), read back by the independent reader; non-trivial = some value has bits above the declared width; the real (5) cases include narrow declared types in 256-bit words and (7) tests whose only failing input is above the declared width, both replayed from the PRINTED text; distinct by hash of the case",
     )
 
 
